@@ -74,6 +74,15 @@ def run_driver(requests, timeout=900):
     return [json.loads(l) for l in lines]
 
 
+def report(run, obj, signature, no_input=False):
+    """one VIOLATION (or KNOWN-FINDING) line per signature and run: the first failing input is the replay, the
+    others are counted in the evidence"""
+    seen = run.cov.setdefault("signatures_reported", {})
+    seen[signature] = seen.get(signature, 0) + 1
+    if seen[signature] == 1:
+        run.violation(obj, signature=signature, no_input=no_input)
+
+
 def mode_name(m):
     return "plain" if m is None else m
 
@@ -154,59 +163,69 @@ def detect_variant(tables):
 
 # ------------------------------------------------------------------ reserved words (exhaustive on the real code)
 def reserved_stream(run, tables, variant):
+    """every entry of the word file, every language with a keyword file, every mode — on the REAL
+    remove_reserved_words / word / gen_identifier"""
+    utils = real_utils()
     words = regen_c05.read_words()
     real = []
     survivors = {}
     for lang in LANGS:
-        kws = set(tables["keywords"][lang])
+        kws = utils.get_reserved_words(utils.RandomUtils.resource_path, lang)
+        if set(kws) != set(tables["keywords"][lang]):
+            raise common.HarnessError("regen_c05 and get_reserved_words read different keyword sets for " + lang)
         ru = fresh_ru(words)
         ru.remove_reserved_words(lang)
-        surv = ru.WORDS
+        surv = sorted(ru.WORDS)
         survivors[lang] = len(surv)
+        run.cov["traces_validated_against_impl"] += 1
+        if not kws:
+            continue            # nothing is reserved: no identifier can collide
+        one = fresh_ru(())
         for w in surv:
             for mode in MODES:
-                ident = w if mode is None else (w.lower() if mode == "lower" else w.capitalize())
+                one.WORDS = {w}
+                ident = real_gen_identifier(one, mode)
                 if ident in kws:
                     real.append((lang, w, mode, ident))
-        run.cov["traces_validated_against_impl"] += 1
     real.sort(key=lambda x: (LANGS.index(x[0]), x[1], mode_name(x[2])))
     run.cov["reserved"] = {"word_file_entries": len(words), "survivors_per_language": survivors,
                            "modes": [mode_name(m) for m in MODES],
                            "collisions_real": [[a, b, mode_name(c), d] for a, b, c, d in real]}
     run.count({"stream": "reserved", "words": len(words), "languages": list(LANGS)})
-    # every collision is replayed through the real word() -> gen_identifier(mode) path and reported
-    for lang, w, mode, ident in real:
-        demo = demonstrate_reserved(lang, w, mode)
-        run.count({"stream": "reserved-demo", "lang": lang, "word": w, "mode": mode_name(mode)})
-        if demo["reserved"]:
-            run.violation({"kind": "failing-input", "stream": "reserved", "lang": lang, "word": w,
-                           "mode": mode_name(mode), "identifier": demo["identifier"],
-                           "note": "the word survives remove_reserved_words(%s) and gen_identifier(%r) makes a "
-                                   "reserved word of the language of it" % (lang, mode)},
-                          signature=reserved_signature(lang, mode))
-        else:
-            raise common.HarnessError("reserved word found by the table walk but not on the gen_identifier path: %r" % (demo,))
-    # correspondence with the model on the regenerated tables
+    # the model's list on the regenerated tables, for the variant the tree implements
     ans = run_driver([{"op": "closed.collisions", "fixed": variant == "fixed"}])[0]
     if "error" in ans:
         raise common.HarnessError("closed.collisions: " + ans["error"])
     model = sorted(tuple(x) for x in ans["r"])
     realm = sorted((lang, w, ident) for lang, w, _, ident in real)
     run.cov["reserved"]["collisions_model"] = [list(x) for x in model]
+    # every collision is a failing input: replayed through pool -> remove_reserved_words -> word() -> gen_identifier
+    for lang, w, mode, ident in real:
+        demo = demonstrate_reserved(lang, w, mode)
+        run.count({"stream": "reserved-demo", "lang": lang, "word": w, "mode": mode_name(mode)})
+        if not demo["reserved"]:
+            raise common.HarnessError("reserved identifier not reproduced on the single-word pool: %r" % (demo,))
+        predicted = (lang, w, ident) in model
+        report(run, {"kind": "failing-input", "stream": "reserved", "lang": lang, "word": w,
+                     "mode": mode_name(mode), "identifier": demo["identifier"], "predicted_by_model": predicted,
+                     "note": "the word survives remove_reserved_words(%s) and gen_identifier(%r) makes a "
+                             "reserved word of the language of it" % (lang, mode)},
+               signature=reserved_signature(lang, mode) if predicted else
+               "identifier:reserved-unmodelled:%s:%s" % (mode_name(mode), lang))
     if model != realm:
-        run.log("reserved-word collisions differ: model %s real %s" % (model, realm))
+        run.log("reserved-word collisions differ: model %s real %s" % (model[:8], realm[:8]))
         run.broken.append({"obligation": "correspondence reservedCollisions", "detail": {"model": model, "real": realm}})
         if not real:
-            run.violation({"kind": "broken-correspondence", "stream": "reserved", "model": model, "real": realm,
-                           "note": "the exhaustive walk over the word file finds no reserved identifier on the real code"},
-                          signature="reserved:model-differs", no_input=True)
+            report(run, {"kind": "broken-correspondence", "stream": "reserved", "model": model, "real": realm,
+                         "note": "the exhaustive walk over the word file finds no reserved identifier on the real code"},
+                   signature="reserved:model-differs", no_input=True)
     if run.cov.get("lean_ahead_of_tree") and real:
         lang, w, mode, ident = real[0]
-        run.violation({"kind": "failing-input", "stream": "reserved", "lang": lang, "word": w, "mode": mode_name(mode),
-                       "identifier": ident,
-                       "note": "Pool.codeIsFixed = true (identifier_not_reserved_status then claims the identifier clause "
-                               "of C05 of the code) but the tree implements the case-sensitive removal"},
-                      signature="identifier:lean-claims-repaired-removal")
+        report(run, {"kind": "failing-input", "stream": "reserved", "lang": lang, "word": w, "mode": mode_name(mode),
+                     "identifier": ident,
+                     "note": "Pool.codeIsFixed = true (identifier_not_reserved_status then claims the identifier clause "
+                             "of C05 of the code) but the tree implements the case-sensitive removal"},
+               signature="identifier:lean-claims-repaired-removal")
     return real
 
 
@@ -355,11 +374,10 @@ def pool_stream(run, tables, variant, ndraws):
         hist = pool_plan(rng, tables, words, size, nops)
         rq, real, final, problems = pool_execute(hist, tables, variant)
         if problems:
-            run.violation({"kind": "failing-input", "stream": "pool", "history": hist, "problems": problems,
+            report(run, {"kind": "failing-input", "stream": "pool", "history": hist, "problems": problems,
                            "note": "judged by the Python reference: a draw must come from the pool, leave it, not repeat "
                                    "since the last reset; the identifier is the draw in the asked spelling; caps avoids "
-                                   "the blacklist"},
-                          signature="pool:reference-fails")
+                                   "the blacklist"}, signature="pool:reference-fails")
         hists.append(hist)
         reqs.append(rq)
         reals.append(real)
@@ -381,9 +399,8 @@ def pool_stream(run, tables, variant, ndraws):
                 run.broken.append({"obligation": "correspondence closed.pool", "detail": detail})
                 if not run.violations:
                     # the Python reference judged every draw of every history (above) and found nothing
-                    run.violation({"kind": "broken-correspondence", "stream": "pool", "history": hist, "detail": detail,
-                                   "note": "model and RandomUtils differ; the Python reference accepts every real draw"},
-                                  signature="pool:model-differs", no_input=True)
+                    report(run, {"kind": "broken-correspondence", "stream": "pool", "history": hist, "detail": detail,
+                                   "note": "model and RandomUtils differ; the Python reference accepts every real draw"}, signature="pool:model-differs", no_input=True)
     run.cov["pool"] = {"histories": len(reqs), "draws": draws, "pool_sizes": {str(k): v for k, v in sorted(sizes.items())},
                        "differences": diffs}
     run.log("pool: %d histories, %d draws, %d differences" % (len(reqs), draws, diffs))
@@ -532,9 +549,8 @@ def report_rejection(run, spec, stage, ans, tables):
     else:
         sig = "closed:%s:%s" % (stage, shape)
     run.tally("rejections", "%s:%s:%s" % (lang, stage, shape))
-    run.violation(replay_of(spec, kind="failing-input", stream="programs", stage=stage, path=path, reason=reason,
-                            note="the verified scope walker rejects this generated program (Closed fails at the path)"),
-                  signature=sig)
+    report(run, replay_of(spec, kind="failing-input", stream="programs", stage=stage, path=path, reason=reason,
+                            note="the verified scope walker rejects this generated program (Closed fails at the path)"), signature=sig)
 
 
 def assignable_requests(calls):
@@ -586,11 +602,10 @@ def programs_stream(run, specs, tables, budget_s, label="programs", flush_at=96)
                         run.broken.append({"obligation": "correspondence closed.assignable",
                                            "detail": {"real": real, "model": model, "call": c["i"]}})
                         if not nbad:
-                            run.violation(replay_of(spec, kind="broken-correspondence", stream="assignable", call=c,
+                            report(run, replay_of(spec, kind="broken-correspondence", stream="assignable", call=c,
                                                     model=model,
                                                     note="model and _get_assignable_vars differ; every target the real "
-                                                         "function returned in this program is declared non-final"),
-                                          signature="assignable:model-differs", no_input=True)
+                                                         "function returned in this program is declared non-final"), signature="assignable:model-differs", no_input=True)
         del pending[:]
 
     for spec, r in stream_results(specs, time.time() + budget_s, workers):
@@ -619,10 +634,9 @@ def programs_stream(run, specs, tables, budget_s, label="programs", flush_at=96)
         run.cov["assignable_calls"] += pl.get("n", 0)
         # the specification-side judgement of the real filter (made in the worker on the live declarations)
         for rec in pl.get("bad", []):
-            run.violation(replay_of(spec, kind="failing-input", stream="assignable", call=rec,
+            report(run, replay_of(spec, kind="failing-input", stream="assignable", call=rec,
                                     note="_get_assignable_vars returned a target whose declaration is final / "
-                                         "unresolved, or a target inside a Java lambda (bad = [receiver, name, is_final])"),
-                          signature="assignable:%s" % ("inside-java-lambda" if rec["jl"] else "final-target"))
+                                         "unresolved, or a target inside a Java lambda (bad = [receiver, name, is_final])"), signature="assignable:%s" % ("inside-java-lambda" if rec["jl"] else "final-target"))
         if len(pending) >= flush_at:
             flush()
     flush()
@@ -707,6 +721,26 @@ def mutants(export):
         out.append(("duplicate-top-level", e, [], {"duplicate-top-level"}))
         out.append(("declared-name-is-keyword", copy.deepcopy(export), [export["decls"][-1]["name"]],
                     {"reserved-identifier"}))
+    # use before declaration: the first statement of a block now refers to a variable the block declares later
+    e = copy.deepcopy(export)
+    n = first_node(e, "block", lambda n: any(x.get("n") == "var" for x in n["body"][1:]))
+    if n is not None:
+        later = next(x for x in n["body"][1:] if x.get("n") == "var")
+        n["body"].insert(0, {"n": "variable", "name": later["name"]})
+        out.append(("use-before-declaration", e, [], {"unresolved-variable"}))
+    # a type variable nobody binds, as the declared type of a variable
+    e = copy.deepcopy(export)
+    n = first_node(e, "var", lambda n: n["varType"] is not None)
+    if n is not None:
+        e["tt"] = e["tt"] + [{"k": "v", "name": "ZZUNBOUND", "var": 0, "bound": None}]
+        n["varType"] = len(e["tt"]) - 1
+        out.append(("type-variable-out-of-scope", e, [], {"type-variable-out-of-scope"}))
+    # one constructor argument too few
+    e = copy.deepcopy(export)
+    n = first_node(e, "new", lambda n: new_of_declared(n) and n["args"])
+    if n is not None:
+        n["args"] = n["args"][1:]
+        out.append(("new-with-missing-argument", e, [], {"arity:new"}))
     e = copy.deepcopy(export)
     n = first_node(e, "call", lambda n: not n["isRefCall"])
     if n is not None:
@@ -790,9 +824,21 @@ def check(run):
     pool_stream(run, tables, variant, 10 ** 4 if quick else 10 ** 5)
     # 3. programs
     settings = [(0, 0, 0, 0), (1, 1, 0, 0), (0, 0, 1, 1)] if quick else pipeline.all_switch_settings()
-    nseeds, cap, budget = (12, 60, 95) if quick else (150, 120, 1300)
+    nseeds, cap, budget = (12, 60, 100) if quick else (150, 120, 1300)
     depths = [3, 4, 5, 5, 6, 6] if quick else [4, 5, 5, 6, 6, 7]
     specs = make_specs(run.rng, LANGS, settings, nseeds, depths, cap)
+    # the effectively-final rule only shows in Java programs with lambdas / nested functions: more of those (small)
+    specs += make_specs(run.rng, ["java"], [(0, 0, 0, 0), (0, 0, 1, 1)], 18 if quick else 300, [4, 4, 5], cap)
+    run.rng.shuffle(specs)
+    # the budget cuts the stream off on a loaded machine: hand the Java programs out first, two for one other
+    # (quick tier only; the thorough stream stays uniformly shuffled over the languages)
+    if quick:
+        java = [x for x in specs if x["lang"] == "java"]
+        other = [x for x in specs if x["lang"] != "java"]
+        specs = []
+        while java or other:
+            specs += java[:2] + other[:1]
+            java, other = java[2:], other[1:]
     exports = programs_stream(run, specs, tables, budget)
     # 4. the checker rejects what it must
     mutant_stream(run, exports, tables, 12 if quick else 40)
@@ -804,12 +850,12 @@ def check(run):
         "run judged against the declarations and compared with the Lean model; + one case per pool operation history "
         "(exact correspondence with RandomUtils, draws fed to the model); + the exhaustive word-file x language x mode "
         "walk on the real remove_reserved_words / gen_identifier; distinct by replay tuple / history shape")
-    if not proofs_ok and not run.violations and not run.known_hit:
-        run.violation({"kind": "broken-proof", "obligations": run.broken,
-                       "note": "no failing input found by the reserved, pool, program and assignable streams of this run"},
-                      signature="proof", no_input=True)
-    elif run.broken and not run.violations and not run.known_hit:
-        run.violation({"kind": "broken-obligation", "obligations": run.broken}, signature="obligation", no_input=True)
+    # a broken obligation for which no stream produced a (new) failing input is reported as such; a known finding
+    # does not stand in for it
+    if run.broken and not run.violations:
+        report(run, {"kind": "broken-proof" if not proofs_ok else "broken-obligation", "obligations": run.broken,
+                     "note": "no failing input found by the reserved, pool, program and assignable streams of this run"},
+               signature="proof" if not proofs_ok else "obligation", no_input=True)
 
 
 def replay(run, rp):
@@ -824,7 +870,7 @@ def replay(run, rp):
         run.count({"stream": "reserved-demo", "lang": rp["lang"], "word": rp["word"], "mode": rp["mode"]})
         run.log("replay reserved:", demo)
         if demo["reserved"]:
-            run.violation(dict(rp, identifier=demo["identifier"]), signature=reserved_signature(rp["lang"], mode))
+            report(run, dict(rp, identifier=demo["identifier"]), signature=reserved_signature(rp["lang"], mode))
         return
     if stream == "pool":
         variant = detect_variant(tables)
@@ -833,9 +879,9 @@ def replay(run, rp):
         run.count({"stream": "pool", "initial": len(rq["initial"]), "ops": len(rq["ops"])})
         run.log("replay pool: reference problems %s, model difference %s" % (problems, detail))
         if problems:
-            run.violation(dict(rp, problems=problems), signature="pool:reference-fails")
+            report(run, dict(rp, problems=problems), signature="pool:reference-fails")
         elif detail is not None:
-            run.violation(dict(rp, detail=detail), signature="pool:model-differs", no_input=True)
+            report(run, dict(rp, detail=detail), signature="pool:model-differs", no_input=True)
         return
     spec = {"lang": rp["lang"], "seed": rp["gen_seed"], "switches": tuple(rp["switches"]), "max_depth": rp["max_depth"],
             "stages": list(STAGES), "export": True, "plugins": [PLUGIN], "cap": 600, "assignable_cap": 10 ** 6}
